@@ -183,6 +183,9 @@ func (w *Worker) run() error {
 	job := w.job
 	t0 := time.Now()
 	var err error
+	if job.RepoDir != "" {
+		raceRepoDir = job.RepoDir
+	}
 	w.index, err = BuildIndex(job.RepoDir, extraCorpus())
 	if err != nil {
 		return err
